@@ -29,6 +29,7 @@ Definition defaults (k : kind) : aobj :=
 Inductive how :=
 | HStr                       (* string: the text itself, empty = none *)
 | HNum (ty : ntype)          (* scalar through the conversion layer *)
+| HPos                       (* line coordinate: float, else a double that fits a float *)
 | HChrKey                    (* first visible character of the text *)
 | HCol
 | HAttr (def hi : Z)         (* line attribute 0..hi *)
@@ -56,8 +57,8 @@ Definition resolve_name (k : kind) (n : bytes) : option (bytes * how) :=
     else if ci ["tpos"; "titlepos"; "title position"] then Some (bs "tpos", HChrKey)
     else None
   | KLine =>
-    if ex ["x1"] then Some (bs "x1", HNum NF32) else if ex ["x2"] then Some (bs "x2", HNum NF32)
-    else if ex ["y1"] then Some (bs "y1", HNum NF32) else if ex ["y2"] then Some (bs "y2", HNum NF32)
+    if ex ["x1"] then Some (bs "x1", HPos) else if ex ["x2"] then Some (bs "x2", HPos)
+    else if ex ["y1"] then Some (bs "y1", HPos) else if ex ["y2"] then Some (bs "y2", HPos)
     else if ci ["color"] then Some (bs "color", HCol)
     else if ci ["width"] then Some (bs "width", HAttr 1 10) else if ci ["style"] then Some (bs "style", HAttr 1 5)
     else if ci ["symbol"] then Some (bs "symbol", HAttr 0 8) else if ci ["size"] then Some (bs "size", HAttr 10 20)
@@ -157,6 +158,14 @@ Definition den_num (ty : ntype) (s : source) : den :=
           | NF64 => PF64 (nv_bits v) | NF32 => PF32 (nv_bits v)
           | NChr => PChr (nv_int v) | _ => PInt (nv_int v) end)
   end.
+(* line coordinate: the float the source denotes; a source that only denotes a double is refused when the
+   double has no float image (finite beyond the float range) *)
+Definition den_pos (s : source) : den :=
+  match src_number NF32 s with
+  | CErr _ => match src_number NF64 s with CZero => DDefault | CKeep => DKeep | _ => DRefuse end
+  | CZero => DDefault | CKeep => DKeep
+  | CVal v => DVal (PF32 (nv_bits v))
+  end.
 (* integer a source denotes for a line attribute *)
 Definition den_attr (cur : option pval) (hi : Z) (s : source) : den :=
   let r := match src_number NU8 s with CErr _ => src_number NI32 s | x => x end in
@@ -225,6 +234,7 @@ Definition denote (h : how) (cur : option pval) (dflt : pval) (s : source) : den
   match h with
   | HStr => den_str s
   | HNum ty => den_num ty s
+  | HPos => den_pos s
   | HChrKey => den_chrkey s
   | HCol => den_col s
   | HAttr _ hi => den_attr cur hi s
